@@ -1,6 +1,7 @@
 import BpProofs.SrcTieMetaInit
 import BpProofs.SrcTieObj
 import BpProofs.Props.C07
+import BpProofs.Props.C06
 /-
   C07, tied to the SOURCE, the construction half: "`__post_init__` derives the selection from constructor
   arguments".  `Cls(**kw)` is the generated dataclass `__init__` + `Message.__setattr__` + `Message.__post_init__`
@@ -18,6 +19,77 @@ set_option linter.unusedSimpArgs false
 namespace Bp.C07
 open Bp Bp.PyMeta Bp.SrcTieMeta
 open Bp.Py (Res ofR)
+
+/-! ### what PyPreludeObj.lean assumes of `self._betterproto`, proved of the translated tables -/
+
+/-- the tie file's `membersFrom` is PyPreludeObj's (SrcTieMeta.lean imports no other prelude, so that it can be used
+    together with either of the two families of ties) -/
+theorem membersFrom_eq (g : Nat) : ∀ (fs : List FieldD) (j : Nat), SrcTieMeta.membersFrom g fs j = Py.membersFrom g fs j
+  | [], _ => rfl
+  | f :: fs, j => by simp [SrcTieMeta.membersFrom, Py.membersFrom, membersFrom_eq g fs (j + 1)]
+
+/-- **the metadata the object-method ties (`src_setattr`, `src_getattribute`, `src_which_one_of`, `src_eq`, `src_copy` …)
+    ASSUME is what `ProtoClassMetadata(cls)` as written builds**: `oneof_group_by_field.get(name)` is
+    `Py.oneofGroupByField`, `oneof_field_by_group[g]` is `Py.oneofFieldByGroup` (the members in declaration order;
+    KeyError exactly for a group without members), `meta_by_field_name[name]` is `Py.metaByFieldName`, iterating
+    `meta_by_field_name` gives `Py.fieldNames`, `sorted_field_names` is a permutation of `Py.sortedFieldNames` (for
+    pairwise distinct numbers), and `_get_field_default(name)` as written is `Py.getFieldDefault` — for every class -/
+theorem src_tables_as_object_methods_assume (S : Schema) (fs : List FieldD) :
+    ∃ M, SrcMeta.ProtoClassMetadata.init fs = .ok M
+      ∧ (∀ name, PyEnum.dictGet M.oneof_group_by_field name = Py.oneofGroupByField fs name)
+      ∧ (∀ g, PyEnum.dictItem M.oneof_field_by_group g =
+            match Py.oneofFieldByGroup fs g with
+            | [] => .raise .key
+            | m :: ms => .ok (m :: ms))
+      ∧ (∀ name, PyEnum.dictItem M.meta_by_field_name name = Py.metaByFieldName fs name)
+      ∧ M.meta_by_field_name.map (·.1) = Py.fieldNames fs
+      ∧ (numsDistinctB fs = true → M.sorted_field_names.Perm (Py.sortedFieldNames fs))
+      ∧ (∀ self name, (∀ f, fs[name]? = some f → mapNotRepeated f = true) →
+            SrcMeta.get_field_default (fun c => constructVal S c []) fs self name = Py.getFieldDefault S fs name) := by
+  refine ⟨tables fs, init_eq fs, tables_group_by_field fs, ?_, ?_, ?_, tables_sorted_perm fs, ?_⟩
+  · intro g
+    have h := tables_field_by_group fs g
+    rw [membersFrom_eq] at h
+    unfold Py.oneofFieldByGroup
+    cases hm : Py.membersFrom g fs 0 with
+    | nil => rw [hm] at h; exact dictItem_none _ _ h
+    | cons m ms => rw [hm] at h; exact dictItem_some _ _ _ h
+  · intro k
+    unfold Py.metaByFieldName
+    cases h : fs[k]? with
+    | none => simp [dictItem_none _ _ (by rw [tables_meta_by_field_name, h]), h]
+    | some f => simp [dictItem_some _ _ f (by rw [tables_meta_by_field_name, h]), h]
+  · show (enumFrom 0 fs).map (·.1) = List.range fs.length
+    rw [enumFrom_map_fst, List.range_eq_range']
+  · intro self k hg
+    rw [get_field_default_eq S _ (constructVal_nil S) fs self k hg]
+    rfl
+
+/-- **the C06 sentence "a freshly constructed message reads every field as its proto3 default", everything as
+    written**: `Cls()` (translated `__init__` / `__setattr__` / `__post_init__`), then `getattr` (translated
+    `__getattribute__`, Gen/SrcObj.lean) on a field outside any oneof returns None for a proto3-optional field and
+    otherwise the model's default, which is also what the translated `_get_field_default` returns -/
+theorem src_fresh_getattr_default (S : Schema) (c : Nat) (i : Nat) (f : FieldD)
+    (hf : (fieldsOf S c)[i]? = some f) (hg : f.group = Option.none) (hmr : mapNotRepeated f = true) :
+    ∃ m cst, constructVal S c [] = .ok m ∧ stateOf m = some cst ∧ cst.1 = c
+      ∧ (∃ st', Src.getattribute S (fieldsOf S c) cst.2 i = .ok (if f.optional then Val.none else defaultOf S f, st'))
+      ∧ ∀ self, SrcMeta.get_field_default (fun c' => constructVal S c' []) (fieldsOf S c) self i = .ok (defaultOf S f) := by
+  refine ⟨fresh S c, (c, freshState { fields := fieldsOf S c, nGroups := groupsOf S c }), constructVal_nil S c, rfl, rfl, ?_, ?_⟩
+  · have hi : i < (fieldsOf S c).length := by
+      rcases Nat.lt_or_ge i (fieldsOf S c).length with h | h
+      · exact h
+      · rw [List.getElem?_eq_none h] at hf; cases hf
+    have hfi : (fieldsOf S c)[i] = f := by
+      rw [List.getElem?_eq_getElem hi] at hf; injection hf
+    obtain ⟨st', h⟩ := C06.fresh_default S c i f hf hg
+    refine ⟨st', ?_⟩
+    rw [SrcTieObj.getattribute_eq S _ _ i hi (by intro g e; rw [hfi, hg] at e; cases e), h]
+    rfl
+  · intro self
+    rw [get_field_default_eq S _ (constructVal_nil S) _ self i
+      (fun f' h' => by rw [hf] at h'; injection h' with h'; subst h'; exact hmr), hf]
+
+/-! ### construction naming several members of one group -/
 
 /-- the last member of group `g` (in declaration order) whose raw slot is not a sentinel, as a left fold:
     `acc` is the answer so far, `i` the index of the head of the lists -/
